@@ -90,7 +90,7 @@ def _gen(g):
                    ["notc", 0, 1, 0, 0, True], ["rel", 0]] + ([["acq", 3], ["notify", 0, 2], ["rel", 0]] if g.bool() else [])]
         actors[3][0] = ["cancel", 8, 3, False]      # harmless first step that just takes 8 cycles
     return {"kind": kind, "config": g.choice(["S", "S", "E", "U"]), "actors": actors,
-            "nest": g.choice([0, 0, 1, 2]), "adapter": g.chance(20)}
+            "nest": g.choice([0, 0, 1, 2]), "adapter": g.chance(20), "residue": g.chance(12)}
 
 
 _strategy = composite(_gen)
@@ -105,6 +105,7 @@ def run_event(case, out, stats):
 
     async def body(sim):
         sim.nest = case.get("nest", 0)
+        sim.residue = bool(case.get("residue"))
         ev = prebuilt if prebuilt is not None else Event()
         set_cycle = [None]
         waiting = {}     # aid -> call cycle
@@ -181,6 +182,7 @@ def run_cond(case, out, stats):
 
     async def body(sim):
         sim.nest = case.get("nest", 0)
+        sim.residue = bool(case.get("residue"))
         cond = prebuilt if prebuilt is not None else Condition()
         holder = [None]
         queue = []           # FIFO of aids in wait(), unmarked, cancellation not requested
